@@ -31,6 +31,11 @@ ASSUMPTIONS = [
     'binary values are compared bitwise: +0.0 and -0.0 are different (angle components excepted - an Angle normalises '
     'on construction - and text, which is only "to 6 decimals"); attribute keys are the casefolded names, and '
     'elem[attr.name] must find the attribute (names with lower() != casefold() are generated)',
+    'string-table capacity per binary version (from the format): v2/v3 32767 strings (int16 count), v4 32768 (32-bit '
+    'count, int16 indexes 0..32767), v5 unbounded here; above that a refusal is accepted - the unchanged tree raises '
+    'struct.error from packing the count (v2/v3 at 32768) or the index 32768 (v4 at 32769), after the header was '
+    'written; at or below the capacity an exception is a violation.  Element counts and array lengths are int32 in '
+    'every version (255/256/257 elements, arrays of 255/256/65535/65536 are fixed cases)',
     'binary: TIME only for version >= 3 (ValueError accepted below); ints in int32; floats float32-representable; '
     'colours 0-255; Time a multiple of 1/10000 s inside int32; angle components in [0, 360)',
     'KeyValues2: an element type is never a value-type keyword, "<valuetype>_array", "element" or "elementid" '
@@ -447,6 +452,8 @@ class ShortReadFile(io.BytesIO):
 
 def execute_big(desc, ctx):
     from srctools.dmx import Element
+    if 'table' in desc:
+        return execute_boundary(desc, ctx)
     graph = _big_graph(desc)
     want = dmxgen.canon_desc(graph)
     root = dmxgen.build_graph(graph)
@@ -487,6 +494,136 @@ def execute_big(desc, ctx):
     ctx.label(*[f'utf8:{w}' for w in sorted(width)])
 
 
+# ------------------------------------------------------------------------------------- size boundaries of the binary wire
+
+# What the binary encoding versions can hold (from the format: v2/v3 write the string-table *count* as int16; v4 writes
+# a 32-bit count but 16-bit *indexes*, so indexes 0..32767 = 32768 strings; v5 is 32-bit throughout).
+TABLE_LIMIT = {2: 0x7FFF, 3: 0x7FFF, 4: 0x8000, 5: 2 ** 31 - 1}
+
+
+def fixed_boundaries(tier: str):
+    """A handful of graphs built by construction to sit on the size boundaries of the binary encodings."""
+    cases = [
+        {'table': {'kind': 'attrs', 'strings': 0x7FFF, 'versions': [2, 3, 4]}},
+        {'table': {'kind': 'attrs', 'strings': 0x8000, 'versions': [2, 3, 4, 5]}},
+        {'table': {'kind': 'attrs', 'strings': 0x8001, 'versions': [4, 5]}},
+        {'table': {'kind': 'values', 'strings': 0x8000, 'versions': [4, 5]}},
+        {'table': {'kind': 'attrs', 'strings': 0x10000, 'versions': [5]}},
+        {'table': {'kind': 'counts', 'children': 255, 'arrays': [255, 256, 65535, 65536], 'versions': [1, 2, 3, 4, 5]}},
+        {'table': {'kind': 'counts', 'children': 256, 'arrays': [], 'versions': [1, 5]}},
+    ]
+    if tier != 'quick':
+        cases += [
+            {'table': {'kind': 'attrs', 'strings': 0xFFFF, 'versions': [5]}},
+            {'table': {'kind': 'attrs', 'strings': 0x10001, 'versions': [4, 5]}},
+            {'table': {'kind': 'values', 'strings': 0x8001, 'versions': [4, 5]}},
+            {'table': {'kind': 'values', 'strings': 0x7FFF, 'versions': [4]}},
+            {'table': {'kind': 'counts', 'children': 65535, 'arrays': [], 'versions': [2, 5]}},
+            {'table': {'kind': 'counts', 'children': 65536, 'arrays': [], 'versions': [4, 5]}},
+        ]
+    return cases
+
+
+def _boundary_graph(spec) -> dict:
+    """kind 'attrs': one element (type == name == 'T', so the table is the same in every version >= 2) with
+    ``strings - 2`` int attributes named by counter ('z…', sorting after "name", so the highest table index is really
+    referenced) -> table = {"name", "T"} + the attribute names.
+    kind 'values' (v4+, where scalar string values live in the table too): attributes with distinct string values.
+    kind 'counts': ``children`` child elements in one element array and int arrays of the given lengths."""
+    def elem(i, etype, name, attrs):
+        return {'type': etype, 'name': name, 'uuid': f'{i + 1:032x}', 'attrs': attrs}
+
+    if spec['kind'] == 'attrs':
+        return {'elems': [elem(0, 'T', 'T', [[f'z{i:05d}', 'int', False, i] for i in range(spec['strings'] - 2)])]}
+    if spec['kind'] == 'values':
+        n = spec['strings'] - 2
+        attrs = [[f'A{i:05d}', 'string', False, f'v{i:05d}'] for i in range(n // 2)]
+        if n % 2:
+            attrs.append(['odd', 'bool', False, True])
+        return {'elems': [elem(0, 'T', 'T', attrs)]}
+    kids = spec['children']
+    attrs = [['kids', 'element', True, [['e', i + 1] for i in range(kids)]]]
+    attrs += [[f'ints{n}', 'int', True, list(range(n))] for n in spec['arrays']]
+    return {'elems': [elem(0, 'T', 'T', attrs)] + [elem(i + 1, 'C', f'c{i % 7}', [['i', 'int', False, i]])
+                                                    for i in range(kids)]}
+
+
+def _expected_table(want: dict, version: int) -> set:
+    """Own model of which strings a version keeps in its table (format description, not export_binary)."""
+    table = {'name'}
+    for node in want['nodes']:
+        table.add(node['type'])
+        if version >= 4:
+            table.add(node['name'])
+        for nm, vt, is_arr, val in node['attrs']:
+            table.add(nm)
+            if version >= 4 and vt == 'string' and not is_arr:
+                table.add(val)
+    return table
+
+
+def execute_boundary(desc, ctx):
+    import struct
+    spec = desc['table']
+    graph = _boundary_graph(spec)
+    want = dmxgen.canon_desc(graph)
+    root = dmxgen.build_graph(graph)
+    ctx.nontrivial(True)
+    for version in spec['versions']:
+        n_strings = len(_expected_table(want, version)) if version >= 2 else 0
+        if spec['kind'] != 'counts':
+            ctx.check(n_strings == spec['strings'], 'harness_table_model',
+                      f'boundary graph has {n_strings} table strings for v{version}, wanted {spec["strings"]}')
+        cfg = (f'binary v{version}, {n_strings} distinct table strings, {len(want["nodes"])} elements '
+               f'({spec["kind"]})')
+        fits = version < 2 or n_strings <= TABLE_LIMIT[version]
+        buf = io.BytesIO()
+        if not fits:
+            # Pre: the version cannot express the data.  A refusal (the unchanged tree: struct.error from packing the
+            # int16 count / index) is accepted; writing a file that does not read back as the graph is not.
+            try:
+                root.export_binary(buf, version)
+            except (struct.error, ValueError, OverflowError):
+                ctx.label(f'table:v{version}:{n_strings}:refused')
+                continue
+        else:
+            try:
+                root.export_binary(buf, version)
+            except Exception as exc:
+                _annotate(exc, cfg + ' export (the format can hold this)')
+                raise
+        data = buf.getvalue()
+        try:
+            dec = dmxgen.decode_binary(data, 'ascii')
+        except dmxgen.DecodeError as exc:
+            ctx.fail('wellformed', f'{cfg}: the written stream is not well-formed binary DMX: {exc}', version=version)
+            continue
+        if version >= 2:
+            ctx.check(len(dec['strings']) == n_strings and set(dec['strings']) == _expected_table(want, version),
+                      'table_size', f'{cfg}: the file has a table of {len(dec["strings"])} strings')
+        ctx.check(dec['trailing'] == 0, 'wellformed', f'{cfg}: {dec["trailing"]} bytes follow the last attribute')
+        diff = dmxgen.canon_diff(want, dmxgen.canon_desc(dec))
+        ctx.check(diff is None, 'decoded_graph', f'{cfg}: the bytes written do not encode the graph: {str(diff)[:500]}',
+                  version=version)
+        try:
+            parsed, _, _ = Element_parse(data)
+        except Exception as exc:
+            _annotate(exc, cfg + ' parse')
+            raise
+        diff = dmxgen.canon_diff(want, dmxgen.canon_graph(parsed))
+        ctx.check(diff is None, 'graph', f'{cfg}: parse(export(g)) is not isomorphic to g: {str(diff)[:500]}',
+                  version=version)
+        if spec['kind'] == 'counts':
+            ctx.label(f'elements:{len(want["nodes"])}', *[f'array_len:{n}' for n in spec['arrays']])
+        else:
+            ctx.label(f'table:v{version}:{n_strings}:{spec["kind"]}')
+
+
+def Element_parse(data: bytes):
+    from srctools.dmx import Element
+    return Element.parse(io.BytesIO(data))
+
+
 # ------------------------------------------------------------------------------------------------------------ sub-checks
 
 def _cells_must(encs, skip=()):
@@ -519,8 +656,13 @@ SUBCHECKS = [
 ]
 
 SUBCHECKS.append(
-    Sub('big_documents', execute_big, strategy=strategy_big, quick=400, thorough=6000, floor=100, quick_shards=2,
-        must_hit=tuple(f'pad:{k}' for k in range(8)) + tuple(
+    Sub('big_documents', execute_big, strategy=strategy_big, fixed=fixed_boundaries, quick=400, thorough=6000,
+        floor=100, quick_shards=2,
+        must_hit=('table:v2:32767:attrs', 'table:v3:32767:attrs', 'table:v4:32767:attrs', 'table:v2:32768:refused',
+                  'table:v3:32768:refused', 'table:v4:32768:attrs', 'table:v5:32768:attrs', 'table:v4:32769:refused',
+                  'table:v5:32769:attrs', 'table:v4:32768:values', 'table:v5:32768:values', 'table:v5:65536:attrs',
+                  'elements:256', 'elements:257', 'array_len:255', 'array_len:256', 'array_len:65535',
+                  'array_len:65536') + tuple(f'pad:{k}' for k in range(8)) + tuple(
             f'{enc}:{mode}' for enc in ('kv2n', 'kv2f', 'bin2', 'bin5') for mode in ('format', 'silent'))
         + ('utf8:2', 'utf8:3', 'utf8:4', 'size:8-16K', 'size:16-32K', 'size:32K+', 'chunk:small', 'chunk:block')))
 
